@@ -46,7 +46,7 @@ func TestC01Histories(t *testing.T) {
 		runOneHistory(r, bases, &h, true)
 		return
 	}
-	n := pick(320, 6000)
+	n := pick(640, 6000)
 	for i := 0; i < n; i++ {
 		hg := genHistory(rng.Fork(fmt.Sprint("h", i)), c01Starts, 14, true)
 		if !mine(i) {
